@@ -162,7 +162,43 @@ func (t *ActiveTable) Delete(ctx context.Context, req *regattapb.DeleteRangeRequ
 	return &regattapb.DeleteRangeResponse{Deleted: r.ResponseDeleteRange.Deleted, PrevKvs: r.ResponseDeleteRange.PrevKvs, Header: &regattapb.ResponseHeader{Revision: rev}}, nil
 }
 
+// validateRequestOps applies the limits of Range, Put and Delete to the operations nested in a transaction.
+func validateRequestOps(ops []*regattapb.RequestOp) error {
+	for _, op := range ops {
+		switch o := op.GetRequest().(type) {
+		case *regattapb.RequestOp_RequestRange:
+			if len(o.RequestRange.GetKey()) > key.LatestVersionLen || len(o.RequestRange.GetRangeEnd()) > key.LatestVersionLen {
+				return serrors.ErrKeyLengthExceeded
+			}
+		case *regattapb.RequestOp_RequestPut:
+			if len(o.RequestPut.GetKey()) == 0 {
+				return serrors.ErrEmptyKey
+			}
+			if len(o.RequestPut.GetKey()) > key.LatestVersionLen {
+				return serrors.ErrKeyLengthExceeded
+			}
+			if len(o.RequestPut.GetValue()) > MaxValueLen {
+				return serrors.ErrValueLengthExceeded
+			}
+		case *regattapb.RequestOp_RequestDeleteRange:
+			if len(o.RequestDeleteRange.GetKey()) == 0 {
+				return serrors.ErrEmptyKey
+			}
+			if len(o.RequestDeleteRange.GetKey()) > key.LatestVersionLen {
+				return serrors.ErrKeyLengthExceeded
+			}
+		}
+	}
+	return nil
+}
+
 func (t *ActiveTable) Txn(ctx context.Context, req *regattapb.TxnRequest) (*regattapb.TxnResponse, error) {
+	if err := validateRequestOps(req.Success); err != nil {
+		return nil, err
+	}
+	if err := validateRequestOps(req.Failure); err != nil {
+		return nil, err
+	}
 	// Do not propose read-only transactions through the log
 	if req.IsReadonly() {
 		return readTable[*regattapb.TxnResponse](t, ctx, true, req)
